@@ -1,6 +1,6 @@
 #!/bin/bash
-# Re-runs every seeded change under /verif/seeded against the check of the property it
-# breaks (quick tier) and prints the catch matrix.  /repo is restored after each.
+# Re-runs every seeded change under /verif/seeded against the checks recorded as catching it
+# (quick tier) and prints the catch matrix.  /repo is restored after each.
 cd "$(dirname "$0")/.." || exit 2
 for d in seeded/mut_*/ seeded/fix_*/; do
   id=$(basename "$d")
@@ -12,6 +12,7 @@ m=json.load(open('$d/meta.json'))
 cb=m.get('caught_by',{})
 ks=[k for k,v in cb.items() if v and not str(v[0]).startswith('not caught')] if isinstance(cb,dict) else []
 print(' '.join(ks) if ks else m['breaks_property'])")
-  res=$(tools/try_mutation.sh "$d/patch.diff" $prop 2>&1 | tail -1)
-  echo "$id -> $res"
+  res=$(tools/try_mutation.sh "$d/patch.diff" $prop 2>&1 | grep -E "exit=" | tr '\n' ';')
+  case "$res" in *exit=1*) verdict=CAUGHT;; *) verdict=MISSED;; esac
+  echo "$id -> $verdict $res"
 done
